@@ -8,6 +8,12 @@ Decided (structural, necessary conditions; DESIGN.md section 5 / C10):
   R-EA   with early_abort a failed version check is never followed by a silent retry
   R-CB   the node-version callback is invoked before the cursor leaves a border (shared with C05)
   R-RES  the resume state is written on every yielding exit
+  R-POP  a layer of the cursor stack is abandoned only when its enumeration ended (iscan_next: iscan_findnext returned
+         OK_SCAN_CONTINUE) or a fresh, validated lookup of the layer's link in the upper layers found it gone
+         (iscan_findnext: null result of a link-resolving descent); a stale version flag of the *saved* layer root is
+         not such evidence (root split / interior root collapse leave the layer populated)
+  R-STALE  locals of iscan_findnext copied from the stack top are not used after the stack changed (pop / push) unless
+         they were re-read from the new stack top
 """
 from yk.facts import (AnalysisBroken, CALL_KINDS, call_args, call_recv, is_call, root_var, short_loc, term, term_str,
                       vname)
@@ -430,6 +436,178 @@ def rule_res(S):
              loc=e['loc'], path=e['path'])
 
 
+def rule_layer(S):
+    """R-POP / R-STALE: the resume stack of the cursor (finding F7)."""
+    facts = S.facts()
+    S.rule('R-POP', 'cursor stack: `stack_pop()` in iscan_next only with the result of iscan_findnext established '
+                    'OK_SCAN_CONTINUE; in iscan_findnext only on the null edge of the result of a link-resolving descent '
+                    '(a yakushima function returning base_node* that reaches link_or_value::get_next_layer), evaluated '
+                    'since the last stack change; that descent validates the link like get() (R-VAR typestate)')
+    S.rule('R-STALE', 'iscan_findnext: a local whose value was read from ctx->stack_top() (directly or through the alias '
+                      'pointer to the top element) is not read after stack_pop() / stack() / stack_clear() unless it '
+                      'was assigned again')
+    f = facts.one(Y + 'iscan_findnext')
+    g = facts.one(Y + 'iscan_next')
+    CHG = (Y + 'iscan_context::stack_pop', Y + 'iscan_context::stack', Y + 'iscan_context::stack_clear')
+    POP = Y + 'iscan_context::stack_pop'
+    GNL = Y + 'link_or_value::get_next_layer'
+
+    # link-resolving descents: yakushima functions with a body that return base_node* and reach get_next_layer
+    def is_resolver(fid):
+        memo = facts.__dict__.setdefault('_c10_resolver', {})
+        if fid not in memo:
+            h = facts.get(fid)
+            ok = False
+            if h is not None and h.blocks and (h.raw.get('ret') or '').replace(' ', '') == 'yakushima::base_node*':
+                reach = R.reachable_funcs(facts, [h])
+                ok = any(is_call(n, cq=GNL) for r in reach.values() for n in r.all_nodes())
+            memo[fid] = ok
+        return memo[fid]
+
+    # ---- iscan_findnext ----
+    # alias pointers to the top element and locals derived from the top element
+    def reads_top(h, n, aliases):
+        for x in h.walk(n):
+            if is_call(x, cq=Y + 'iscan_context::stack_top'):
+                return True
+            if x['k'] == 'DeclRefExpr' and x.get('id') in aliases:
+                return True
+        return False
+
+    aliases = set()
+    derived = {}
+    for _ in range(2):
+        for n in f.all_nodes():
+            if n['k'] == 'DeclStmt':
+                for v in n.get('vars', []):
+                    if 'init' in v and reads_top(f, f.node(v['init']), aliases):
+                        derived[v['id']] = v.get('name') or vname(v['id'])
+                        if v['type'].rstrip().endswith('*') and 'stack_element' in v['type']:
+                            aliases.add(v['id'])
+    if len(derived) < 3:
+        raise AnalysisBroken('R-STALE: fewer than 3 locals of iscan_findnext are read from the stack top')
+    stale_sites = {}
+    pop_sites = {}
+    uses = [0]
+
+    def lhs_of_assign(h, n):
+        p = h.parent(n)
+        if p is None:
+            return False
+        if p['k'] == 'BinaryOperator' and p.get('op') == '=':
+            return h.strip(h.ch(p)[0], casts=True) is n
+        if p['k'] == 'CXXOperatorCallExpr' and p.get('cn') == 'operator=' and p.get('args'):
+            return h.strip(h.node(p['args'][0]), casts=True) is n
+        return False
+
+    def step(ctx, n, st):
+        stale, nullv, nnv = st
+        if n['k'] in CALL_KINDS and n.get('callee', '').split('(')[0] in CHG:
+            if n.get('callee', '').split('(')[0] == POP:
+                e = pop_sites.setdefault('stack_pop at ' + short_loc(n), {'ok': True, 'loc': short_loc(n), 'path': None})
+                if not nullv:
+                    e['ok'] = False
+                    e['path'] = e['path'] or ctx.witness()
+            return (frozenset(derived), frozenset(), frozenset())
+        if n['k'] == 'DeclStmt':
+            for v in n.get('vars', []):
+                stale = stale - {v['id']}
+                nullv = nullv - {v['id']}
+                nnv = nnv - {v['id']}
+            return (stale, nullv, nnv)
+        if n['k'] == 'DeclRefExpr' and n.get('id') in derived:
+            if lhs_of_assign(f, n):
+                return (stale - {n['id']}, nullv, nnv)
+            uses[0] += 1
+            if n['id'] in stale:
+                site = 'use of %s' % derived[n['id']]
+                e = stale_sites.setdefault(site, {'loc': short_loc(n), 'path': ctx.witness()})
+        return (stale, nullv, nnv)
+
+    res_vars = set()
+    for n in f.all_nodes():
+        if n['k'] in CALL_KINDS and is_resolver(n.get('callee')):
+            v = R.assigned_var(f, n)
+            if v is not None:
+                res_vars.add(v)
+
+    def branch(ctx, blk, idx, st):
+        stale, nullv, nnv = st
+        t = blk.term
+        if t and len(blk.succ) == 2 and 'cond' in t:
+            flip, shape = R.cond_shape(f, t['cond'])
+            if shape[0] == 'nonnull' and shape[1] in res_vars:
+                truth = (idx == 0) != flip
+                if truth:
+                    if shape[1] in nullv:
+                        return None
+                    nnv = nnv | {shape[1]}
+                else:
+                    if shape[1] in nnv:
+                        return None
+                    nullv = nullv | {shape[1]}
+        return (stale, nullv, nnv)
+
+    ex = Explorer(f, step, branch)
+    ex.run((frozenset(), frozenset(), frozenset()))
+    S.count('R-STALE: CFG visits', ex.visits)
+    S.count('R-STALE: locals read from the stack top', len(derived))
+    S.count('R-POP: link-resolving descents called by iscan_findnext', len(res_vars))
+    S.ob('R-STALE', f.qname, 'reads of %d stack-derived locals (%s)' % (len(derived), ', '.join(sorted(derived.values()))),
+         not stale_sites, 'every read follows a (re-)assignment made after the last stack change' if not stale_sites else
+         'stale copies are read after the stack changed: ' + ', '.join(sorted(stale_sites)),
+         loc=(sorted(stale_sites.values(), key=lambda e: e['loc'])[0]['loc'] if stale_sites else None),
+         path=(sorted(stale_sites.values(), key=lambda e: e['loc'])[0]['path'] if stale_sites else None))
+    for site, e in sorted(stale_sites.items()):
+        S.ob('R-STALE', f.qname, site, False,
+             'read after stack_pop()/stack() without being re-read from the new stack top: the upper layer is resumed '
+             'with the state of the abandoned layer', loc=e['loc'], path=e['path'])
+    for site, e in sorted(pop_sites.items()):
+        S.ob('R-POP', f.qname, site, e['ok'],
+             'the layer is abandoned only after a fresh link lookup found it gone' if e['ok'] else
+             'a layer is abandoned without a fresh lookup of its link in the upper layers having found it gone: a root '
+             'split or an interior-root collapse leaves the layer populated and its remaining keys are skipped',
+             loc=e['loc'], path=e['path'])
+    # the resolvers validate their link reads
+    nres = 0
+    for fid in sorted(k for k in facts.__dict__.get('_c10_resolver', {}) if k):
+        if facts.__dict__['_c10_resolver'][fid]:
+            h = facts.get(fid)
+            if any(n['k'] in CALL_KINDS and n.get('callee') == fid for n in f.all_nodes()):
+                nres += 1
+                e_, d_, r_, nf_ = occ.point_reader(S, h, check_rv=False)
+                S.require('R-VAR', 'layer descents of %s' % h.qname, d_, 1)
+
+    # ---- iscan_next ----
+    rcv = [v['id'] for n in g.all_nodes() if n['k'] == 'DeclStmt' for v in n.get('vars', [])
+           if 'init' in v and any(is_call(x, cq=Y + 'iscan_findnext') for x in g.walk(g.node(v['init'])))]
+    if len(rcv) != 1:
+        raise AnalysisBroken('R-POP: iscan_next does not bind the result of iscan_findnext to one local')
+    rcv = rcv[0]
+    npop = {}
+
+    def gstep(ctx, n, fs):
+        fs = R.track_assign(g, n, fs, facts)
+        if n['k'] in CALL_KINDS and n.get('callee', '').split('(')[0] == POP:
+            e = npop.setdefault('stack_pop at ' + short_loc(n), {'ok': True, 'loc': short_loc(n), 'path': None})
+            if R.facts_get(fs, rcv) != 'in:' + Y + 'status::OK_SCAN_CONTINUE':
+                e['ok'] = False
+                e['path'] = ctx.witness()
+        if n['k'] == 'ReturnStmt':
+            return None
+        return fs
+
+    def gbranch(ctx, blk, idx, fs):
+        return R.refine(g, blk, idx, fs)
+
+    Explorer(g, gstep, gbranch).run(frozenset())
+    for site, e in sorted(npop.items()):
+        S.ob('R-POP', g.qname, site, e['ok'],
+             'the layer is left after iscan_findnext reported its enumeration complete (OK_SCAN_CONTINUE)' if e['ok']
+             else 'a layer is popped although iscan_findnext did not report OK_SCAN_CONTINUE', loc=e['loc'], path=e['path'])
+    S.require('R-POP', 'stack_pop sites of iscan_next', len(npop), 1)
+
+
 def rule_eq(S):
     """iscan_check_retry: the cursor's validation primitive (sibling of scan_check_retry, C06 R-EQ)."""
     facts = S.facts()
@@ -508,4 +686,5 @@ def run(S):
     rule_ea(S)
     rule_cb(S)
     rule_res(S)
+    rule_layer(S)
     rule_eq(S)
